@@ -5,6 +5,7 @@ CONSTANT MaxLen <- TrMaxLen
 CONSTANT MaxPend <- Big
 CONSTANT MaxErr <- Big
 CONSTANT MaxReads <- Big
+CONSTANT KeepSched = TRUE
 CONSTRAINT Progress
 INVARIANT InOrderNoLossNoDupNoTear NeverValueFromCutFrame CleanEndOnlyAtBoundary UEofOnlyInsideFrame ErrorsReportedOnce InvalidLenJustified BufferBounded StaysInSync
 POSTCONDITION Accepted
